@@ -1352,7 +1352,47 @@ def gen_schema_case(ctx, T):
                     sc[k] = (list(sc[k]) + [sc[k][-1]] * nfr)[:nfr] if nfr else []
     if any(x is None for x in sc["symbols"]):
         sc["symbols"] = [x or "H" for x in sc["symbols"]]
+    if rng.random() < 0.14:
+        damage_column_length(rng, T, sc, nat)
     return sc
+
+
+COLLEN_FILL = {"elea": lambda T, e: T["ea2a"].get(e, 1), "elez": lambda T, e: T["e2z"].get(e, 1), "mass": lambda T, e: T["ea2massstr"].get(e, "1.0"),
+               "real": lambda T, e: True, "elbl": lambda T, e: "", "symbols": lambda T, e: e}
+
+
+def damage_column_length(rng, T, sc, nat):
+    """one per-atom array (symbols or an optional descriptor, supplied here if the case has none) with more or fewer entries than
+    there are atoms -- mostly on a schema whose fragment list is a valid partition into >= 2 fragments (contiguize's slow path
+    handles the per-atom arrays itself there), otherwise on whatever pattern the case already has.  No record exists: refusal."""
+    if nat >= 2 and rng.random() < 0.75:
+        cuts = sorted(rng.sample(range(1, nat), min(nat - 1, rng.choice([1, 1, 2, 3]))))
+        sc["frags"] = py_pieces(nat, cuts)
+        sc["fkind"] = "valid"
+        for k in ("fchg", "fmult"):
+            if k in sc and len(sc[k]) != len(cuts) + 1:
+                del sc[k]
+    cols = [k for k in ("elea", "elez", "mass", "real", "elbl") if sc.get(k) is not None and len(sc[k]) == nat]
+    r = rng.random()
+    if r < 0.12:
+        x = "symbols"
+    elif cols and r < 0.6:
+        x = rng.choice(cols)
+    else:
+        x = rng.choice(["elea", "elez", "mass", "real", "elbl"])
+        if sc.get(x) is None or len(sc[x]) != nat:
+            sc[x] = [COLLEN_FILL[x](T, str(e).capitalize() if str(e).capitalize() in T["e2z"] else "H") for e in sc["symbols"][:nat]]
+            sc[x] += [sc[x][-1]] * (nat - len(sc[x]))
+    col = list(sc[x])
+    if not col:
+        return
+    if rng.random() < 0.6:
+        extra = rng.choice([1, 1, 1, 2, nat])
+        sc[x] = col + [rng.choice(col) if rng.random() < 0.5 else col[-1] for _ in range(extra)]
+        sc["fkind"] += "+long_" + x
+    else:
+        sc[x] = col[:-1] if len(col) > 1 and rng.random() < 0.8 else col[:len(col) // 2]
+        sc["fkind"] += "+short_" + x
 
 
 def schema_as_arrays(sc):
